@@ -45,6 +45,7 @@ type verifyOpts struct {
 	depth    int
 	pathCap  int
 	workers  int
+	filter   func(class string) bool // nil: discharge everything
 }
 
 func (p *Program) newExec(fn *ssa.Function, fc *FuncContract, opts verifyOpts) *Exec {
@@ -164,6 +165,15 @@ func (p *Program) verifyFunc(fn *ssa.Function, fc *FuncContract, opts verifyOpts
 		dis bool
 	}
 	var jobs []*job
+	if opts.filter != nil {
+		var keep []string
+		for _, n := range names {
+			if opts.filter(oblClass(n)) {
+				keep = append(keep, n)
+			}
+		}
+		names = keep
+	}
 	for _, n := range names {
 		for _, o := range byName[n] {
 			jobs = append(jobs, &job{o: o})
@@ -227,13 +237,30 @@ func (p *Program) verifyFunc(fn *ssa.Function, fc *FuncContract, opts verifyOpts
 		fr.Obls = append(fr.Obls, or)
 	}
 	// vacuity: every cover query must be satisfiable
-	fr.Covers = len(x.covers)
+	// (a program point is reachable if it is reachable on some path)
+	reach := map[string]bool{}
+	var cnames []string
 	for _, c := range x.covers {
+		if _, ok := reach[c.Name]; !ok {
+			cnames = append(cnames, c.Name)
+			reach[c.Name] = false
+		}
+	}
+	for _, c := range x.covers {
+		if reach[c.Name] {
+			continue
+		}
 		q := x.buildQuery(c, 1)
 		q.Goal = nil
 		r := runCover(q)
-		if r.Status == "unsat" {
-			fr.CoverBad = append(fr.CoverBad, c.Name)
+		if r.Status != "unsat" {
+			reach[c.Name] = true
+		}
+	}
+	fr.Covers = len(cnames)
+	for _, n := range cnames {
+		if !reach[n] {
+			fr.CoverBad = append(fr.CoverBad, n)
 		}
 	}
 	return fr
